@@ -130,6 +130,15 @@ class ExprMixin:
                 return fr[name]
         clo = st.env.get("__closure__")
         while clo is not None:
+            # a closure captures the VARIABLE: its value is the current binding in the defining frame while that call is live, the last
+            # binding it had when the call ended, and only otherwise (module-level lambdas, frames without an id) the snapshot taken at the def
+            fid = clo.get("__frame_id__")
+            if fid is not None:
+                live = next((fr for fr in reversed(st.frames[:-1]) if fr.get("__frame_id__") == fid), None)
+                if live is None:
+                    live = st.ghost.get("__dead_frames__", {}).get(fid)
+                if live is not None and name in live:
+                    return live[name]
             if name in clo:
                 return clo[name]
             owner = clo.get("__funcinfo__")
@@ -158,7 +167,17 @@ class ExprMixin:
             key = (r[2].name, name)
             if key in self.const_overrides:
                 return self.const_overrides[key](self, st)
-            return self.eval_const(r[1], r[2], st)
+            cache = st.ghost.get("__module_objects__", {})
+            if key in cache:
+                return cache[key]
+            v = self.eval_const(r[1], r[2], st)
+            if isinstance(v, Ref):
+                # a module-level object exists once: every read on this path sees the same object.  A module-level container would carry
+                # state from one call (and one invocation in a warm sandbox) to the next, which a per-call contract cannot see: rejected
+                if isinstance(v.cls, str) and not v.cls.startswith("opaque:"):
+                    raise Unsupported(f"module-level mutable container {key[0]}.{name} (state shared between calls is not modelled)")
+                st.ghost["__module_objects__"] = {**cache, key: v}
+            return v
         raise Unsupported(f"name {name} -> {r[0]}")
 
     def eval_const(self, node, module, st):
@@ -172,6 +191,14 @@ class ExprMixin:
             raise Unsupported(f"module constant not single-valued: {ast.unparse(node)[:60]}")
         return res[0][1]
 
+    def class_attr_value(self, ca, name, st):
+        """value of a class-level attribute.  It is evaluated once, when the class is created, and the ONE object is shared by the class and
+        all its instances; re-evaluating the expression at each read is only faithful for immutable values, so a heap object is rejected"""
+        v = self.eval_const(ca[0], ca[1].module, st)
+        if isinstance(v, Ref):
+            raise Unsupported(f"class-level attribute {ca[1].key}.{name} is a mutable object shared by all instances (not modelled)")
+        return v
+
     def ev_NamedExpr(self, e, st):
         def f(v, s):
             s.env[e.target.id] = v
@@ -183,6 +210,21 @@ class ExprMixin:
 
         def f(vals, s):
             pieces = []
+            raised = []
+            for node, v in zip(e.values, vals):
+                if isinstance(node, ast.FormattedValue) and node.format_spec is not None:
+                    for exc, cond in self.format_spec_failure(node, v, s):
+                        alive = None
+                        for taken, s_ in self.branch(s, cond):
+                            if taken:
+                                raised.extend(self.raise_ext(s_, exc, "format specification does not apply to the value"))
+                            else:
+                                alive = s_
+                        if alive is None:
+                            return raised
+                        s = alive
+            if raised:
+                return raised + [("val", fresh("str", "fstr"), s)]
             for node, v in zip(e.values, vals):
                 if isinstance(node, ast.FormattedValue) and (node.conversion != -1 or node.format_spec is not None):
                     return [("val", fresh("str", "fstr"), s)]
@@ -194,6 +236,44 @@ class ExprMixin:
                 return [("val", "".join(pieces), s)]
             return [("val", Sym("str", simp(z3.Concat([zstr(p) for p in pieces]) if len(pieces) > 1 else zstr(pieces[0]))), s)]
         return self.then(self.ev_seq(parts, st), f)
+
+    def format_spec_failure(self, node, v, st):
+        """f'{v:SPEC}': (exception name, condition) when format(v, SPEC) raises, else None.  Presentation types are type-specific:
+        d/x/o/b/c/n accept only integers (a float raises ValueError - unlike '%d', which truncates), e/f/g/% accept numbers, s accepts
+        strings; None accepts no non-empty specification (TypeError).  A conversion (!r, !s, !a) makes the value a string first."""
+        spec = node.format_spec
+        if not (isinstance(spec, ast.JoinedStr) and all(isinstance(x, ast.Constant) for x in spec.values)):
+            raise Unsupported("computed format specification")
+        text = "".join(str(x.value) for x in spec.values)
+        if not text:
+            return []
+        ty = text[-1] if text[-1].isalpha() or text[-1] == "%" else ""
+        if node.conversion != -1:
+            kinds = {"str": T}
+        else:
+            inner = v.val if isinstance(v, Opt) else v
+            none = is_none(v)
+            if isinstance(inner, bool) or isinstance(inner, int) or is_sym(inner, "int") or is_sym(inner, "bool"):
+                k = "int"
+            elif isinstance(inner, float) or is_sym(inner, "real"):
+                k = "real"
+            elif isinstance(inner, str) or is_sym(inner, "str"):
+                k = "str"
+            elif inner is None:
+                k = "none"
+            else:
+                raise Unsupported(f"format specification {text!r} applied to a value of unknown type")
+            kinds = {k: simp(z3.Not(none)), "none": none} if k != "none" else {"none": T}
+        accepts = {"": ("int", "real", "str"), "s": ("str",)}
+        for c_ in "dxXobcn":
+            accepts[c_] = ("int",)
+        for c_ in "eEfFgG%":
+            accepts[c_] = ("int", "real")
+        if ty not in accepts:
+            raise Unsupported(f"format presentation type {ty!r}")
+        bad_value = simp(z3.Or([c for k, c in kinds.items() if k != "none" and k not in accepts[ty]] or [F]))
+        bad_none = simp(kinds.get("none", F))
+        return [(exc, c) for exc, c in (("TypeError", bad_none), ("ValueError", bad_value)) if not z3.is_false(c)]
 
     def to_str(self, v, st):
         """str(v) for scalars; None if the text is not modelled (caller uses a fresh string)"""
@@ -263,7 +343,7 @@ class ExprMixin:
                     return [("val", FuncRef(m, bound=o), st)]
                 ca = o.cls.find_class_attr(name)
                 if ca is not None:
-                    return [("val", self.eval_const(ca[0], ca[1].module, st), st)]
+                    return [("val", self.class_attr_value(ca, name, st), st)]
                 if o.cls.is_exception and name == "args":
                     return [("val", stor.get("args", ()), st)]
                 if name == "__class__":
@@ -290,7 +370,7 @@ class ExprMixin:
                 return [("val", FuncRef(m), st)]
             ca = c.find_class_attr(name)
             if ca is not None:
-                return [("val", self.eval_const(ca[0], ca[1].module, st), st)]
+                return [("val", self.class_attr_value(ca, name, st), st)]
             if name == "__name__":
                 return [("val", c.name, st)]
             raise Unsupported(f"class attribute {c.key}.{name}")
@@ -636,6 +716,7 @@ class ExprMixin:
         from .loader import FuncInfo
         fn = ast.FunctionDef(name="<lambda>", args=e.args, body=[ast.Return(value=e.body)], decorator_list=[], lineno=e.lineno, col_offset=0)
         fi = FuncInfo("<lambda>", fn, st.env.get("__module__"), None)
+        st.env["__made_closure__"] = True
         return [("val", FuncRef(fi, closure=dict(st.env)), st)]
 
     # comprehensions ------------------------------------------------------------------------------------
@@ -672,9 +753,24 @@ class ExprMixin:
         if len(e.generators) != 1:
             raise Unsupported("nested comprehension")
         gen = e.generators[0]
+        # a comprehension has its own scope: its loop variable neither overwrites nor leaks into the enclosing function's variable of that name
+        targets = sorted({n.id for n in ast.walk(gen.target) if isinstance(n, ast.Name)})
+        for lam in (x for part in ([e.key, e.value] if kind == "dict" else [e.elt]) + list(gen.ifs) for x in ast.walk(part) if isinstance(x, ast.Lambda)):
+            own = {a.arg for a in lam.args.args + lam.args.kwonlyargs + lam.args.posonlyargs}
+            if any(isinstance(x, ast.Name) and x.id in targets and x.id not in own for x in ast.walk(lam.body)):
+                raise Unsupported("a lambda created in a comprehension captures the loop variable (every such lambda sees its LAST value)")
+        missing = object()
 
         def f(it, s):
-            return self.comp_over(e, gen, self.unopt(s, it), s, kind)
+            saved = {n: s.env.get(n, missing) for n in targets}
+            out = self.comp_over(e, gen, self.unopt(s, it), s, kind)
+            for _, _, s_ in out:
+                for n, v in saved.items():
+                    if v is missing:
+                        s_.env.pop(n, None)
+                    else:
+                        s_.env[n] = v
+            return out
         return self.then(self.ev(gen.iter, st), f)
 
     def comp_over(self, e, gen, it, st, kind):
